@@ -36,6 +36,7 @@ type c06Case struct {
 	M      int         `json:"M"`
 	Cut    bool        `json:"cut"`
 	Resume int64       `json:"resume"`
+	Skip   bool        `json:"skip"`
 	Exp    [][]c06Line `json:"exp"`
 }
 
@@ -104,7 +105,7 @@ func c06Run(dir string, id int, c *c06Case, jp *jobProvider, lg *zap.SugaredLogg
 		file:       rf,
 		filename:   path,
 		sourceID:   pipeline.SourceID(id + 1),
-		shouldSkip: *atomic.NewBool(false),
+		shouldSkip: *atomic.NewBool(c.Skip),
 		mu:         &sync.Mutex{},
 		isDone:     false,
 	}
